@@ -1445,7 +1445,8 @@ PROPS['C16'] = dict(
     theorems=['Flac.C16.stream_no_fabrication', 'Flac.C16.stream_results_ascending', 'Flac.C16.no_sync_no_loss_partial',
               'Flac.C16.skipUntilFF_no_ff', 'Flac.C16.no_sync_no_loss', 'Flac.C16.tail_noSync_eof', 'Flac.C16.clean_stream_reads_all',
               'Flac.decodeFrame_sync', 'Flac.decodeFrame_ext', 'Flac.C16.written_frame_standalone', 'Flac.C16.written_stream_reads_back',
-              'Flac.C16.accepted_rate_self_describing', 'Flac.C16.streaminfo_only_rate_refused', 'Flac.C16.accepted_bps_self_describing', 'Flac.C16.accepted_block_size_self_describing'],
+              'Flac.C16.accepted_rate_self_describing', 'Flac.C16.streaminfo_only_rate_refused', 'Flac.C16.accepted_bps_self_describing', 'Flac.C16.accepted_block_size_self_describing',
+              'Flac.C16.number_wf', 'Flac.C16.stream_writer_header_wf', 'Flac.C16.stream_writer_frame_wf', 'Flac.C16.stream_writer_frame_standalone'],
     components=[StreamRW(), StreamRead()],
     rule='streamrw: 1-6 frames with independently drawn rate/channels/depth/length written by one FlacStreamWriter, '
          'garbage (none / 0xFF-free / with planted FF F8|F9) between them, source segmented (max-N reads or random split points), '
@@ -1460,7 +1461,7 @@ PROPS['C16'] = dict(
           'C01.frame_roundtrip) and written_stream_reads_back (their composition over serialized frames). The model is tied to the code on '
           'every run by generated frame sequences with garbage and source segmentations, compared result by result; writes longer than 65535 samples per channel must be refused. '
           'Writer side (Props/C16b.lean over Model/RateEnc.lean, SampleRate::try_from and the stream writer\'s rate rule regenerated into Gen/RateEnc.lean): accepted_rate_self_describing - every rate '
-          'FlacStreamWriter::write accepts gets a header code under which the header alone carries it (the rate condition of FrameWf none); streaminfo_only_rate_refused; accepted_bps_self_describing and accepted_block_size_self_describing the same for the bit depth and the block length (1-65535); the driver predicts the rate, depth and block-size codes '
+          'FlacStreamWriter::write accepts gets a header code under which the header alone carries it (the rate condition of FrameWf none); streaminfo_only_rate_refused; accepted_bps_self_describing and accepted_block_size_self_describing the same for the bit depth and the block length (1-65535); stream_writer_header_wf composes them with the minimally coded frame number into headerWfB none (sound for HeaderWf none) for every header the stream writer builds, stream_writer_frame_wf / stream_writer_frame_standalone lift that to the frame: for any accepted parameters, any channel assignment and any subframes the search may produce for them the frame is FrameWf none and decodes from its own bytes alone; the driver predicts the rate, depth and block-size codes '
           'of every frame written (and every refusal) from the requested parameters.',
     note='Trusted: Lean kernel, translate.py, harness. Segmentation independence holds of the model by construction and is only exhibited for the '
          'implementation; bitstream-io/BufRead are modelled, not verified.',
@@ -1475,13 +1476,15 @@ C01_THEOREMS = ['Flac.C01.stereo_leftside_inverse', 'Flac.C01.stereo_sideright_i
                 'Flac.C01.rice_fold_neg', 'Flac.C01.rice_fold_pos', 'Flac.C01.fold_unfold']
 
 PROPS['C01'] = dict(
-    module='FlacModel.Props.C01d',
+    module='FlacModel.Props.C01e',
     theorems=C01_THEOREMS + ['Flac.C01.frame_roundtrip', 'Flac.C01.frame_roundtrip_checked', 'Flac.decodeFrame_serialize', 'Flac.frameWfB_sound',
                              'Flac.readHeaderFields_write', 'Flac.readSubframe_write', 'Flac.readResidual_write', 'Flac.crc8_self', 'Flac.crc16_self',
                              'Flac.C01.lpc_restores', 'Flac.C01.fixed_restores', 'Flac.C01.wasted_restores', 'Flac.C01.recorrelate_stereo',
                              'Flac.C01.lossless_independent', 'Flac.C01.lossless_stereo',
                              'Flac.C01.declared_total_decodes_all', 'Flac.C01.stream_of_frames_lossless', 'Flac.C14.interrupted_decodes_complete_frames',
-                             'Flac.file_head_roundtrip', 'Flac.C01.file_lossless', 'Flac.C07.loop_refines'],
+                             'Flac.file_head_roundtrip', 'Flac.C01.file_lossless', 'Flac.C07.loop_refines',
+                             'Flac.C01.tz32_dvd', 'Flac.C01.wasted_shift_lossless', 'Flac.C01.wasted_allzero_sound',
+                             'Flac.C01.absSum_zero_iff', 'Flac.C01.all0_flags_own_channel', 'Flac.C01.all0_constant_lossless'],
     components=[EncFrame('roundtrip'), RoundTripFile()],
     rule='encframe: every length 1..48 (quick) / 1..96 (thorough) x 11 signal shapes x mono/stereo x 6 option sets, plus random '
          '(channels 1-8, depth in the subset codes, lengths around powers of two and block-size codes, all option dimensions); every frame the real '
@@ -1854,9 +1857,10 @@ PROPS['C12'] = dict(
 )
 
 PROPS['C20'] = dict(
-    module='FlacModel.Props.C20',
+    module='FlacModel.Props.C20b',
     theorems=['Flac.C20.idx_run', 'Flac.C20.track_body_run', 'Flac.C20.tracks_run', 'Flac.C20.import_exact', 'Flac.C20.other_skipped', 'Flac.C20.ranges_of_import',
-              'Flac.C20.export_import_layout', 'Flac.C20.timestamp_value', 'Flac.C12.parseMsf_ok'],
+              'Flac.C20.export_import_layout', 'Flac.C20.timestamp_value', 'Flac.C12.parseMsf_ok',
+              'Flac.C20.trimChars_spacing', 'Flac.C20.classify_spacing'],
     components=[CueText()],
     rule='generated cue sheet texts with the layout they describe: 1-99 tracks, with and without a pre-gap INDEX 00, up to 100 index points per track, increasing MM:SS:FF positions including minutes far above 99, optional '
          'CATALOG / ISRC (with dashes, quoted) / FLAGS PRE lines, FILE/REM lines, arbitrary indentation, trailing blanks, LF and CRLF; the expected structure, track ranges and the export->import result are computed '
@@ -1866,7 +1870,8 @@ PROPS['C20'] = dict(
           'lead-in 88200 and the lead-out at the stream length (induction over tracks and over index points, any profile). other_skipped: FILE/REM/unknown lines change nothing. ranges_of_import: track ranges run from each '
           'INDEX 01 to the next and to the stream length. export_import_layout: the lines of display() of an imported sheet import again to the same track/index layout. timestamp_value + parseMsf_ok: the '
           'MM:SS:FF <-> samples conversion at 588 samples per frame is exact and checked.',
-    note='The theorems are about interp on classified lines; the lexical layer (str::lines, trim, split_once, integer parsing, the exact text display() prints) is tied to the implementation by the CueText correspondence '
+    note='The theorems are about interp on classified lines; plus classify_spacing (Props/C20b.lean): the token a line is classified as does not depend on white space (any char::is_whitespace characters) before or after it; '
+         'the rest of the lexical layer (str::lines, split_once, integer parsing, the exact text display() prints) is tied to the implementation by the CueText correspondence '
          '(text in, structure out, on both sides) rather than proved.',
     trusted_base=COMMON_TRUST,
     assumptions=['the stream length is a multiple of 588 (CD-DA mode), as the property states'],
